@@ -5,7 +5,7 @@ from kfv.core import Ctx
 from kfv.rules import tensor_rules as TR
 
 TECHNIQUE = ('abstract interpretation of the module helpers over named index spaces with composite (product / concatenation / window) axes, '
-             'per valuation of (linear | conv) x (bias | no bias) x (padded | unpadded)')
+             'per valuation of (linear | conv) x (bias | no bias) x (padding[0], padding[1] each zero | positive, padding guards evaluated abstractly); convolution output-extent arithmetic')
 EXPLANATION = (
     'get_grad, get_a_factor, get_g_factor, set_grad, a_factor_shape, g_factor_shape and _extract_patches are evaluated on abstract '
     'tensors whose axes are named index spaces; view/reshape must keep the flattening order, cat builds a concatenated axis, unfold '
